@@ -11,7 +11,16 @@ select the variant (`cfg_tie`). The theorems are about the repaired code:
 * `flush_placement_independent`    hence: same writes, any placement of flush / compact / reopen
 * `month_family_selection`         month-type family selection, every query range
 * `query_eq_naive_partial`         leaf answer = reference for a function whose agg type is the field's
-                                   own commutative aggregate, over any series / families / sources
+                                   own commutative aggregate, over any series / families / sources, with ANY
+                                   other functions selected on the same field (`leaf_reduce_correct`,
+                                   `leaf_reduce_by_type`, `leaf_reduce_fields_correct`: the by-type reduce)
+* `expr_eval_correct`, `expr_eval_congr`, `select_item_eq_naive_partial`
+                                   select items with nested calls / literals / binary arithmetic, point by
+                                   point, and end to end over the leaf answer
+* `query_all_groups_eq_naive_partial`  tag filter + group-by under the index contract of C10 (hypothesis
+                                   `IndexContract`, citing `Props.C10.filter_eq_eval_now`)
+* `query_eq_naive_first_last_partial`  first/last (any aggregate): time-ordered writes inside one source,
+                                   cross-source findings excluded by `OneSource`
 The remaining `_partial` hypotheses exclude the four findings that are NOT repaired (first/last and
 non-native functions over several storage units; second half of the negations at the end of the
 file). The first half of the negations is about the OLD variants: they document what each fix
@@ -20,6 +29,9 @@ repaired, next to the proof that the repaired variant answers the reference on t
 import LinVerif.Lemmas.C11Refine
 import LinVerif.Lemmas.C11Query
 import LinVerif.Lemmas.C11Compose
+import LinVerif.Lemmas.C11Expr
+import LinVerif.Lemmas.C11Groups
+import LinVerif.Lemmas.C11Sorted
 import LinVerif.Generated.C11
 import LinVerif.Driver.C11
 
@@ -129,6 +141,54 @@ theorem func_call_tie :
       [FuncType.sum, .min, .max, .count, .last, .first].map (fun f => f.code) ∧
     Generated.C11.rateValueExpr = "val / float64(interval/timeutil.OneSecond)" := by decide
 
+/-- the expression layer statement by statement: the three point cases and the two guards of
+`binaryEval` (model: `binPoint`, `binaryEval`), the four operators with division by zero = 0
+(`evalOp`), the dispatch of `expression.eval` (`QueryExpr.eval`), what `funcCall` / `binaryEval` of
+expression.go call, and the default agg type of a field without function (`defaultParam`). -/
+theorem expression_tie :
+    Generated.C11.binaryEvalPointCases =
+      ["!leftHasValue && right.IsSingle() => ", "left.IsSingle() && !rightHasValue => ",
+       "leftHasValue || rightHasValue => result.SetValue(i, eval(binaryOp, left.GetValue(i), right.GetValue(i)))"] ∧
+    Generated.C11.binaryEvalGuards =
+      ["left == nil || right == nil => return nil", "left.IsEmpty() && right.IsEmpty() => return nil"] ∧
+    Generated.C11.binaryOpCases =
+      ["stmt.ADD => return left + right", "stmt.SUB => return left - right", "stmt.MUL => return left * right",
+       "stmt.DIV => if right == 0 { return 0 } ; return left / right", " => return 0"] ∧
+    Generated.C11.expressionEvalCases =
+      ["*stmt.SelectItem", "*stmt.CallExpr", "*stmt.ParenExpr", "*stmt.BinaryExpr", "*stmt.NumberLiteral",
+       "*stmt.FieldExpr", ""] ∧
+    Generated.C11.expressionEvalBodies =
+      ["return e.eval(nil, ex.Expr)", "switch ex.FuncType { case function.Quantile: return e.quanti",
+       "return e.eval(nil, ex.Expr)", "return e.binaryEval(ex)", "values := collections.NewFloatArray(e.pointCount)",
+       "fieldName := ex.Name", "return nil"] ∧
+    Generated.C11.expressionFuncCallCalls =
+      ["e.eval", "len", "append", "function.AvgCall", "function.RateCall", "function.FuncCall"] ∧
+    Generated.C11.expressionBinaryEvalCalls = ["e.eval", "len", "e.eval", "len", "binaryEval"] ∧
+    Generated.C11.defaultParamsTable =
+      FieldType.all.map (fun ft => (ft.code, [(LinVerif.QueryExpr.defaultParam ft).code])) := by
+  refine ⟨rfl, rfl, rfl, rfl, rfl, rfl, rfl, by decide⟩
+
+/-- the witness of finding `expr-rate-of-valueless-operands-panics` panics exactly without the guard. -/
+def rateWitness (g : Bool) : Prop :=
+  match LinVerif.QueryExpr.evalItem g 2 3600 [(2, ⟨.min, [(.min, [])]⟩)]
+      (.call .rate (.bin .sub (.field 2) (.field 2))) with
+  | .crash => g = false
+  | .empty => g = true
+  | _ => False
+
+/-- the driver evaluates select items with the variant of `RateCall` the source has
+(`Generated.C11.fixRateNilGuard`: an `if` on `params[0] == nil` in RateCall). On the witness of
+finding `expr-rate-of-valueless-operands-panics` the selected variant panics exactly when the
+source has no guard (`Neg.rate_of_nil_array_panics`; with fixes/C11-rate-nil-guard.patch the item
+has no result and `expr_no_panic_guarded` is the statement about the source). -/
+theorem rate_nil_guard_tie : rateWitness Generated.C11.fixRateNilGuard := by
+  have h : ∀ g : Bool, rateWitness g := by
+    intro g
+    cases g <;> simp [rateWitness, LinVerif.QueryExpr.evalItem, LinVerif.QueryExpr.eval, LinVerif.QueryExpr.applyFunc,
+      LinVerif.QueryExpr.binaryEval, LinVerif.QueryExpr.FArr.isEmpty, LinVerif.QueryExpr.paramOf,
+      LinVerif.QueryExpr.defaultParam, Map.lookup, List.range, List.range.loop]
+  exact h _
+
 /-- the memory database's created time is process-unique; `Cleanup` clears the time range kept
 under it (model: `Shard.newCreated`, `Shard.ranges`, `Shard.flush`). -/
 theorem created_time_tie :
@@ -232,20 +292,52 @@ theorem month_select (lens : List Nat) (hpos : ∀ l ∈ lens, 0 < l) (fams : Li
 
 /-! ## down-sampling, leaf reduce, field functions -/
 
-/-- **Down-sampling.** One `DownSampling` call (fresh field aggregator, one agg type `A`) leaves in
-bucket `t` the `A`-fold, slots ascending, of the source values whose slot lies in the family's
-query slot range and whose bucket `(base + slot) / ratio` is `t`. -/
-theorem downsample_correct (A : AggType) (get : Nat → Option Int) (srcLo srcHi tLo tHi g0 qs ratio t : Nat) :
-    arrGet (dsCall [A] get srcLo srcHi tLo tHi g0 qs ratio) A t =
+/-- **Down-sampling.** One `DownSampling` call (fresh field aggregator with the agg types `L` of all
+the functions selected on the field) leaves in bucket `t` of EVERY one of its agg types `A` the
+`A`-fold, slots ascending, of the source values whose slot lies in the family's query slot range
+and whose bucket `(base + slot) / ratio` is `t`. -/
+theorem downsample_correct (L : List AggType) (hL : L.Nodup) (A : AggType) (hAL : A ∈ L)
+    (get : Nat → Option Int) (srcLo srcHi tLo tHi g0 qs ratio t : Nat) :
+    arrGet (dsCall L get srcLo srcHi tLo tHi g0 qs ratio) A t =
       fsum A (slotsOf srcLo srcHi)
         (fun s => if tLo ≤ s ∧ s ≤ tHi ∧ (g0 + s - qs) / ratio = t then get s else none) :=
-  dsCall_spec A get srcLo srcHi tLo tHi g0 qs ratio t
+  dsCall_spec L hL A hAL get srcLo srcHi tLo tHi g0 qs ratio t
 
-/-- **Leaf reduce** for one agg type: the reduced bucket is the fold, in call order, of the calls'
-buckets. -/
-theorem leaf_reduce_correct (A : AggType) (calls : List Arrays) (hw : ∀ c ∈ calls, WF1 A c) (t : Nat) :
-    arrGet (calls.foldl reduceInto (Arrays.init [A])) A t = fsum A calls (fun c => arrGet c A t) :=
-  reduce_spec A calls hw t
+/-- **`fieldAggregator.Aggregate`, one incoming field iterator, any agg types on both sides**
+(the by-type reduce of fix eb2ea99, branch for branch): `acc` is the reducing aggregator (any agg
+types, any content), `inc` any list of incoming primitive series `(agg type, slot ↦ value)`. The
+values of type `A` of the aggregator get, in the order of the incoming series, the series of
+type `A` and — the fallback branch `aggIdx < 0` — the series whose type the aggregator has no
+values for; a series of another type of the aggregator never touches them. -/
+theorem leaf_reduce_by_type (acc inc : Arrays) (hka : KeysOK acc) (hki : KeysOK inc) (A : AggType)
+    (hA : Has acc A = true) (t : Nat) :
+    arrGet (reduceInto acc inc) A t =
+      ocomb A (arrGet acc A t)
+        (fsum A inc (fun (p : AggType × List (Nat × Int)) =>
+          if p.1 = A ∨ Has acc p.1 = false then Map.lookup p.2 t else none)) :=
+  (reduceInto_general inc acc hka hki).2.2 A t hA
+
+/-- **`groupingAggregator.Aggregate` for any fields**: `acc` holds one field aggregator per selected
+field (any agg types each), `inc` is ANY list of incoming field series `(field, primitive series)`;
+a series is merged into the first aggregator of its field name and dropped when there is none.
+The values of type `A` of field `f` get exactly the by-type selection of the series of field `f`,
+in arrival order. -/
+theorem leaf_reduce_fields_correct (acc inc : List (Nat × Arrays)) (f : Nat) (a0 : Arrays)
+    (hf : Map.lookup acc f = some a0) (hka : KeysOK a0) (hki : ∀ p ∈ inc, KeysOK p.2) (A : AggType)
+    (hA : Has a0 A = true) (t : Nat) :
+    fieldGet (groupReduce acc inc) f A t =
+      ocomb A (arrGet a0 A t)
+        (fsum A ((inc.filter (fun p => p.1 = f)).flatMap Prod.snd) (fun (p : AggType × List (Nat × Int)) =>
+          if p.1 = A ∨ Has a0 p.1 = false then Map.lookup p.2 t else none)) :=
+  groupReduce_spec acc inc f a0 hf hka hki A hA t
+
+/-- **Leaf reduce**, the case of the leaf: every call carries the same agg types `L` (the functions
+selected on the field) as the reducing aggregator; for every `A ∈ L` the reduced bucket is the
+fold, in call order, of the calls' buckets of type `A` — no other type leaks in. -/
+theorem leaf_reduce_correct (L : List AggType) (hL : L.Nodup) (A : AggType) (hAL : A ∈ L)
+    (calls : List Arrays) (hw : ∀ c ∈ calls, WFL L c) (t : Nat) :
+    arrGet (calls.foldl reduceInto (Arrays.init L)) A t = fsum A calls (fun c => arrGet c A t) :=
+  reduce_spec L hL A hAL calls hw t
 
 /-- **Memory query of one page, end to end** (write buffer + window compactions + the two
 `DownSampling` calls of `timeSeriesIndex.Load` + leaf reduce): for a commutative field aggregate
@@ -254,13 +346,14 @@ reference slot map that fall into the bucket — whatever the window / compress-
 (For first/last the two calls are reduced in load order, not in slot order: unrepaired finding
 `last-downsampling-flushed-slot-wins`.) -/
 theorem page_query_eq_naive_partial (w : Nat) (hw : 0 < w) (A : AggType) (hc : AggType.isComm A = true)
+    (L : List AggType) (hL : L.Nodup) (hAL : A ∈ L)
     (ws : List (Nat × Int)) (lo hi tLo tHi g0 qs ratio t : Nat) :
-    arrGet ((pageCalls [A] (runWrites w A (Buf.fresh w) ws) lo hi tLo tHi g0 qs ratio).foldl reduceInto
-        (Arrays.init [A])) A t =
+    arrGet ((pageCalls L (runWrites w A (Buf.fresh w) ws) lo hi tLo tHi g0 qs ratio).foldl reduceInto
+        (Arrays.init L)) A t =
       fsum A (slotsOf lo hi)
         (fun s => if tLo ≤ s ∧ s ≤ tHi ∧ (g0 + s - qs) / ratio = t then refSlots A ws s else none) := by
   obtain ⟨hinv, hview⟩ := run_refines w A ws (Buf.fresh w) (BufInv.fresh hw)
-  rw [pageCalls_spec (agg_comm_of_isComm hc) _ hinv]
+  rw [pageCalls_spec (agg_comm_of_isComm hc) L hL hAL _ hinv]
   apply fsum_congr
   intro s _
   rw [hview s]
@@ -270,16 +363,16 @@ theorem page_query_eq_naive_partial (w : Nat) (hw : 0 < w) (A : AggType) (hc : A
 same buckets as the memory query gave (the metric-level range `[lo, hi]` covers the written
 slots). -/
 theorem page_query_flush_invariant (w : Nat) (hw : 0 < w) (A : AggType) (hc : AggType.isComm A = true)
-    (ws : List (Nat × Int))
+    (L : List AggType) (hL : L.Nodup) (hAL : A ∈ L) (ws : List (Nat × Int))
     (lo hi : Nat) (hcov : ∀ s, refSlots A ws s ≠ none → lo ≤ s ∧ s ≤ hi) (tLo tHi g0 qs ratio t : Nat) :
-    arrGet (dsCall [A]
+    arrGet (dsCall L
         (fun slot => if slot < lo ∨ slot > hi then none
           else cellAt (flushCells A (runWrites w A (Buf.fresh w) ws) lo hi) (slot - lo))
         lo hi tLo tHi g0 qs ratio) A t =
-      arrGet ((pageCalls [A] (runWrites w A (Buf.fresh w) ws) lo hi tLo tHi g0 qs ratio).foldl reduceInto
-        (Arrays.init [A])) A t := by
+      arrGet ((pageCalls L (runWrites w A (Buf.fresh w) ws) lo hi tLo tHi g0 qs ratio).foldl reduceInto
+        (Arrays.init L)) A t := by
   obtain ⟨hinv, hview⟩ := run_refines w A ws (Buf.fresh w) (BufInv.fresh hw)
-  rw [pageCalls_spec (agg_comm_of_isComm hc) _ hinv, dsCall_spec]
+  rw [pageCalls_spec (agg_comm_of_isComm hc) L hL hAL _ hinv, dsCall_spec L hL A hAL]
   apply fsum_congr
   intro s _
   have hcov' : ∀ t, memView A (runWrites w A (Buf.fresh w) ws) t ≠ none → lo ≤ t ∧ t ≤ hi := by
@@ -303,8 +396,9 @@ theorem query_eq_naive_partial (w : Nat) (hw : 0 < w) (sch : List (Nat × FieldT
     (q : Query) (sc : Scope) (fams group : List Nat)
     (hfa : (runOps { Shard.init w with fieldTypes := sch } ops).fieldAgg q.field = q.fieldAgg)
     (hF : q.funcAgg = q.fieldAgg) (hc : AggType.isComm q.fieldAgg = true) (hspf : 0 < q.spf)
+    (L : List AggType) (hL : L.Nodup) (hAL : q.fieldAgg ∈ L)
     (hsc : ScopeOK q sc group) (t : Nat) :
-    arrGet (leafGroup (runOps { Shard.init w with fieldTypes := sch } ops) q sc [q.fieldAgg] fams group) q.fieldAgg t =
+    arrGet (leafGroup (runOps { Shard.init w with fieldTypes := sch } ops) q sc L fams group) q.fieldAgg t =
       naiveBucket q (pointsOf ops) group fams t := by
   have hinv : Inv (runOps { Shard.init w with fieldTypes := sch } ops) (pointsOf ops) := by
     simpa using inv_runOps ops _ [] (inv_init w hw sch) hg
@@ -312,7 +406,7 @@ theorem query_eq_naive_partial (w : Nat) (hw : 0 < w) (sch : List (Nat × FieldT
     inv2_runOps ops _ (inv2_init w sch)
   have hcomm : AggComm ((runOps { Shard.init w with fieldTypes := sch } ops).fieldAgg q.field) := by
     rw [hfa]; exact agg_comm_of_isComm hc
-  have := leafGroup_eq_fsum _ _ hinv hinv2 q sc hspf hcomm fams group hsc t
+  have := leafGroup_eq_fsum _ _ hinv hinv2 q hL (by rw [hfa]; exact hAL) sc hspf hcomm fams group hsc t
   rw [hfa] at this
   rw [this, naiveBucket_eq_fsum, hF]
   apply fsum_congr
@@ -331,13 +425,204 @@ theorem query_group_eq_naive_partial (w : Nat) (hw : 0 < w) (sch : List (Nat × 
     (q : Query) (sc : Scope) (fams group : List Nat)
     (hfa : (runOps { Shard.init w with fieldTypes := sch } ops).fieldAgg q.field = q.fieldAgg)
     (hF : q.funcAgg = q.fieldAgg) (hc : AggType.isComm q.fieldAgg = true) (hspf : 0 < q.spf)
+    (L : List AggType) (hL : L.Nodup) (hAL : q.fieldAgg ∈ L)
     (hsc : ScopeOK q sc group) :
-    bucketsOf q (leafGroup (runOps { Shard.init w with fieldTypes := sch } ops) q sc [q.fieldAgg] fams group) q.fieldAgg =
+    bucketsOf q (leafGroup (runOps { Shard.init w with fieldTypes := sch } ops) q sc L fams group) q.fieldAgg =
       naiveGroup q (pointsOf ops) group fams := by
   unfold bucketsOf naiveGroup
   congr 1
   funext t
-  rw [query_eq_naive_partial w hw sch ops hg q sc fams group hfa hF hc hspf hsc t]
+  rw [query_eq_naive_partial w hw sch ops hg q sc fams group hfa hF hc hspf L hL hAL hsc t]
+
+/-! ## first / last (any aggregate) inside one source -/
+
+/-- **Memory query of one page written in time order**, ANY aggregate (first and last included), any
+interval ratio: the two `DownSampling` calls (compress buffer, then write buffer) and the leaf
+reduce give the slot-ascending fold of the reference slot map, whatever the window compactions. -/
+theorem page_query_eq_naive_sorted (w : Nat) (hw : 0 < w) (A : AggType) (L : List AggType) (hL : L.Nodup) (hAL : A ∈ L)
+    (ws : List (Nat × Int)) (hsorted : (ws.map Prod.fst).Pairwise (· ≤ ·)) (lo hi tLo tHi g0 qs ratio t : Nat) :
+    arrGet ((pageCalls L (runWrites w A (Buf.fresh w) ws) lo hi tLo tHi g0 qs ratio).foldl reduceInto
+        (Arrays.init L)) A t =
+      fsum A (slotsOf lo hi)
+        (fun s => if tLo ≤ s ∧ s ≤ tHi ∧ (g0 + s - qs) / ratio = t then refSlots A ws s else none) := by
+  obtain ⟨hinv, hview⟩ := run_refines w A ws (Buf.fresh w) (BufInv.fresh hw)
+  have hs := runWrites_sorted w hw A ws [] (by simpa using hsorted) (by simpa [runWrites] using sortedB_fresh w)
+  rw [pageCalls_spec_sorted A L hL hAL _ hinv (by simpa using hs)]
+  apply fsum_congr
+  intro s _
+  rw [hview s]
+  simp [memView_fresh]
+
+/-- **The flushed page**, ANY aggregate, ANY write order: the one `DownSampling` call on the flushed
+cells gives the slot-ascending fold of the reference slot map (`flush` merges slot by slot, older
+value first). -/
+theorem flushed_page_query_eq_naive (w : Nat) (hw : 0 < w) (A : AggType) (L : List AggType) (hL : L.Nodup) (hAL : A ∈ L)
+    (ws : List (Nat × Int))
+    (lo hi : Nat) (hcov : ∀ s, refSlots A ws s ≠ none → lo ≤ s ∧ s ≤ hi) (tLo tHi g0 qs ratio t : Nat) :
+    arrGet (dsCall L
+        (fun slot => if slot < lo ∨ slot > hi then none
+          else cellAt (flushCells A (runWrites w A (Buf.fresh w) ws) lo hi) (slot - lo))
+        lo hi tLo tHi g0 qs ratio) A t =
+      fsum A (slotsOf lo hi)
+        (fun s => if tLo ≤ s ∧ s ≤ tHi ∧ (g0 + s - qs) / ratio = t then refSlots A ws s else none) := by
+  obtain ⟨hinv, hview⟩ := run_refines w A ws (Buf.fresh w) (BufInv.fresh hw)
+  rw [dsCall_spec L hL A hAL]
+  apply fsum_congr
+  intro s _
+  have hcov' : ∀ t, memView A (runWrites w A (Buf.fresh w) ws) t ≠ none → lo ≤ t ∧ t ≤ hi := by
+    intro t ht
+    apply hcov t
+    rw [hview t] at ht
+    simpa [memView_fresh] using ht
+  rw [flushCell_eq_memView A hinv lo hi s hcov', hview s]
+  simp [memView_fresh]
+
+/-- **Leaf answer = naive reference for first / last** (no commutativity hypothesis: any field
+aggregate). Every history of writes / flushes / compactions / reopens in which the writes of a
+page arrive in time order INSIDE ONE SOURCE (`sortedOps`: a write's slot is at or after the slots
+its page in the current memory database holds — a new memory database after a flush starts
+afresh), a query on the field's own aggregate for ONE series, any range / ratio / families, when
+every queried family keeps its data in one source (`OneSource`: only the memory database, or one
+file and no memory database). `OneSource` is the explicit hypothesis that keeps out the unrepaired
+cross-source findings `last-field-flushed-value-wins` and `last-downsampling-flushed-slot-wins`
+(sources are reduced in load order: `Neg.last_field_flushed_value_wins`). -/
+theorem query_eq_naive_first_last_partial (w : Nat) (hw : 0 < w) (sch : List (Nat × FieldType)) (ops : List Op)
+    (hg : goodOps { Shard.init w with fieldTypes := sch } ops = true)
+    (hso : sortedOps { Shard.init w with fieldTypes := sch } ops)
+    (q : Query) (sc : Scope) (fams : List Nat) (ser : Nat)
+    (hfa : (runOps { Shard.init w with fieldTypes := sch } ops).fieldAgg q.field = q.fieldAgg)
+    (hF : q.funcAgg = q.fieldAgg) (hspf : 0 < q.spf)
+    (L : List AggType) (hL : L.Nodup) (hAL : q.fieldAgg ∈ L)
+    (hone : ∀ fam ∈ fams, OneSource (runOps { Shard.init w with fieldTypes := sch } ops) fam)
+    (hsc : ScopeOK q sc [ser]) (t : Nat) :
+    arrGet (leafGroup (runOps { Shard.init w with fieldTypes := sch } ops) q sc L fams [ser]) q.fieldAgg t =
+      naiveBucket q (pointsOf ops) [ser] fams t := by
+  have hinv : Inv (runOps { Shard.init w with fieldTypes := sch } ops) (pointsOf ops) := by
+    simpa using inv_runOps ops _ [] (inv_init w hw sch) hg
+  have hinv2 : Inv2 (runOps { Shard.init w with fieldTypes := sch } ops) :=
+    inv2_runOps ops _ (inv2_init w sch)
+  have hps : PagesSorted (runOps { Shard.init w with fieldTypes := sch } ops) :=
+    pagesSorted_runOps ops _ [] (inv_init w hw sch) hg (pagesSorted_init w sch) hso
+  have := leafGroup_eq_fsum_one_source _ _ hinv hinv2 hps q hL (by rw [hfa]; exact hAL) sc hspf fams hone ser hsc t
+  rw [hfa] at this
+  rw [this, naiveBucket_eq_fsum, hF, fsum_cons, fsum_nil, ocomb_none_right]
+  apply fsum_congr
+  intro fam _
+  apply fsum_congr
+  intro slot _
+  have hr := hinv.refines fam ser q.field slot
+  rw [hfa] at hr
+  rw [hr]
+
+/-- an instance with a `last` field: out-of-window but time-ordered writes (window compactions),
+a second family that was flushed (one file, no memory database), ratio 6. -/
+example :
+    let ops : List Op := [.write 1 0 1 4 .last 3 1, .write 1 0 1 4 .last 4 2, .write 1 0 1 4 .last 25 3,
+      .write 1 0 1 4 .last 27 4, .write 2 1 1 4 .last 2 5, .write 2 1 1 4 .last 4 6, .flush 1]
+    let s := runOps { Shard.init 15 with fieldTypes := [(4, .last)] } ops
+    let q : Query := ⟨4, .last, .last, 32, 0, 63, 6⟩
+    goodOps { Shard.init 15 with fieldTypes := [(4, .last)] } ops = true ∧
+    bucketsOf q (leafGroup s q ⟨[4], [1]⟩ [.last] [0, 1] [1]) .last = [(0, 2), (4, 4), (5, 5), (6, 6)] ∧
+    naiveGroup q (pointsOf ops) [1] [0, 1] = [(0, 2), (4, 4), (5, 5), (6, 6)] := by
+  decide
+
+/-! ## tag filter and group-by: the index layer as a named assumption -/
+
+/-- **What the leaf gets from the index layer** (series filter + grouping), as property C10 proves it
+for the index (`LinVerif.Props.C10.filter_eq_eval_now`, `LinVerif.Props.C10.groupby_values_now`) —
+imported here as a HYPOTHESIS, not re-proved: `series` are the written series with their tags,
+`found` the series ids the filter returns for condition `c`, `grouping` the groups (group key ↦
+series ids) that grouping by the keys `by_` returns for them. -/
+structure IndexContract (series : List (Nat × Tags)) (c : Cond) (by_ : List Nat) (found : List Nat)
+    (grouping : List (List Nat × List Nat)) : Prop where
+  /-- `Props.C10.filter_eq_eval_now`: the filter result is the SET of written series whose tags
+  satisfy the condition. -/
+  filter : ∀ s, s ∈ found ↔ ∃ t, (s, t) ∈ series ∧ c.eval t = true
+  /-- `Props.C10.groupby_values_now`: a found series is grouped iff its tags carry all group-by keys,
+  and then under the values of its own tags. -/
+  group : ∀ k s, (∃ ss, (k, ss) ∈ grouping ∧ s ∈ ss) ↔ (s ∈ found ∧ ∃ t, (s, t) ∈ series ∧ groupKey? by_ t = some k)
+  /-- the grouping is a map: one entry per key, a series once, no empty group. -/
+  keys_nodup : (grouping.map Prod.fst).Nodup
+  series_nodup : ∀ g ∈ grouping, g.2.Nodup
+  nonempty : ∀ g ∈ grouping, g.2 ≠ []
+
+/-- the complete leaf answer for the groups the index layer delivers. -/
+def leafAnswer (s : Shard) (q : Query) (sc : Scope) (L : List AggType) (fams : List Nat)
+    (grouping : List (List Nat × List Nat)) : List (List Nat × List (Nat × Int)) :=
+  grouping.map (fun g => (g.1, bucketsOf q (leafGroup s q sc L fams g.2) q.fieldAgg))
+
+/-- **The complete leaf answer = the naive query**, tag filter and group-by included: under the
+index contract (C10's theorems as hypothesis) the leaf answers, for EVERY group key, exactly what
+`naiveQuery` computes from the written points, the series' tags, the condition and the group-by
+keys — the same groups (none missing, none extra) with the same buckets; same class of queries as
+`query_eq_naive_partial` (a series id has one tag set: `hser`). -/
+theorem query_all_groups_eq_naive_partial (w : Nat) (hw : 0 < w) (sch : List (Nat × FieldType)) (ops : List Op)
+    (hg : goodOps { Shard.init w with fieldTypes := sch } ops = true)
+    (q : Query) (sc : Scope) (fams : List Nat)
+    (hfa : (runOps { Shard.init w with fieldTypes := sch } ops).fieldAgg q.field = q.fieldAgg)
+    (hF : q.funcAgg = q.fieldAgg) (hc : AggType.isComm q.fieldAgg = true) (hspf : 0 < q.spf)
+    (L : List AggType) (hL : L.Nodup) (hAL : q.fieldAgg ∈ L)
+    (series : List (Nat × Tags)) (hser : (series.map Prod.fst).Nodup) (c : Cond) (by_ : List Nat)
+    (found : List Nat) (grouping : List (List Nat × List Nat))
+    (hidx : IndexContract series c by_ found grouping)
+    (hsf : q.field ∈ sc.fields) (hss : ∀ g ∈ grouping, ∀ ser ∈ g.2, ser ∈ sc.series) (k : List Nat) :
+    Map.lookup (leafAnswer (runOps { Shard.init w with fieldTypes := sch } ops) q sc L fams grouping) k =
+      Map.lookup (naiveQuery q (pointsOf ops) series c by_ fams) k := by
+  unfold leafAnswer naiveQuery
+  rw [lookup_map_groups grouping
+      (fun ss => bucketsOf q (leafGroup (runOps { Shard.init w with fieldTypes := sch } ops) q sc L fams ss) q.fieldAgg) k,
+    lookup_map_groups (groupsOf series c by_) (fun ss => naiveGroup q (pointsOf ops) ss fams) k, lookup_groupsOf]
+  -- a series has one tag set
+  have huniq : ∀ s t1 t2, (s, t1) ∈ series → (s, t2) ∈ series → t1 = t2 := by
+    intro s t1 t2 h1 h2
+    have h1' := lookup_of_mem_nodup series s t1 hser h1
+    have h2' := lookup_of_mem_nodup series s t2 hser h2
+    rw [h1'] at h2'
+    exact Option.some.inj h2'
+  -- membership in the index's group with key k = membership in the reference's group
+  have hmem : ∀ s, (∃ ss, (k, ss) ∈ grouping ∧ s ∈ ss) ↔ s ∈ membersOf series c by_ k := by
+    intro s
+    rw [hidx.group k s, mem_membersOf, hidx.filter s]
+    constructor
+    · rintro ⟨⟨t, ht, hct⟩, t', ht', hk⟩
+      have := huniq s t t' ht ht'
+      subst this
+      exact ⟨t, ht, hct, hk⟩
+    · rintro ⟨t, ht, hct, hk⟩
+      exact ⟨⟨t, ht, hct⟩, t, ht, hk⟩
+  cases hl : Map.lookup grouping k with
+  | none =>
+    have hnil : membersOf series c by_ k = [] := by
+      cases hm : membersOf series c by_ k with
+      | nil => rfl
+      | cons s rest =>
+        exfalso
+        obtain ⟨ss, hks, _⟩ := (hmem s).mpr (by rw [hm]; simp)
+        have := lookup_of_mem_nodup grouping k ss hidx.keys_nodup hks
+        rw [hl] at this
+        cases this
+    simp [hnil]
+  | some ss =>
+    have hks : (k, ss) ∈ grouping := mem_of_lookup_some grouping k ss hl
+    have hperm : ss.Perm (membersOf series c by_ k) := by
+      rw [List.perm_ext_iff_of_nodup (hidx.series_nodup _ hks) (membersOf_nodup series c by_ k hser)]
+      intro s
+      rw [← hmem s]
+      constructor
+      · intro h; exact ⟨ss, hks, h⟩
+      · rintro ⟨ss', hks', h⟩
+        have h1 := lookup_of_mem_nodup grouping k ss' hidx.keys_nodup hks'
+        rw [hl] at h1
+        cases h1
+        exact h
+    have hne : membersOf series c by_ k ≠ [] := by
+      intro he
+      rw [he] at hperm
+      exact hidx.nonempty _ hks (List.Perm.eq_nil hperm)
+    simp only [Option.map_some, hne, if_false]
+    congr 1
+    rw [query_group_eq_naive_partial w hw sch ops hg q sc fams ss hfa hF hc hspf L hL hAL ⟨hsf, hss _ hks⟩]
+    exact naiveGroup_perm q (by rw [hF]; exact agg_comm_of_isComm hc) _ hperm fams
 
 /-- a non-trivial instance: out-of-order window writes, two series, two families, a series that
 exists only in memory and a field (2) that exists only in a file, a file compaction; the query on
@@ -351,6 +636,18 @@ example :
     goodOps { Shard.init 15 with fieldTypes := [(1, .sum), (2, .min)] } ops = true ∧
     bucketsOf q (leafGroup s q ⟨[1], [1, 2]⟩ [.sum] [0, 1] [1, 2]) .sum = naiveGroup q (pointsOf ops) [1, 2] [0, 1] ∧
     (naiveGroup q (pointsOf ops) [1, 2] [0, 1]).length = 4 := by
+  decide
+
+/-- two functions on one field (`select sum(f), max(f)`: agg types `[sum, max]`): the array of the
+field's own aggregate is the reference, whatever the other function — same history as above. -/
+example :
+    let ops : List Op := [.write 1 0 1 1 .sum 5 1, .write 1 0 1 1 .sum 9 2, .write 1 0 1 1 .sum 7 4,
+      .write 2 1 1 1 .sum 9 2, .write 1 0 1 1 .sum 30 3, .flush 0, .write 3 0 1 1 .sum 5 10, .flush 0, .compact 0,
+      .write 4 0 2 1 .sum 7 1]
+    let s := runOps { Shard.init 15 with fieldTypes := [(1, .sum)] } ops
+    let q : Query := ⟨1, .sum, .sum, 32, 0, 63, 6⟩
+    bucketsOf q (leafGroup s q ⟨[1], [1, 2]⟩ [.sum, .max] [0, 1] [1, 2]) .sum = naiveGroup q (pointsOf ops) [1, 2] [0, 1] ∧
+    bucketsOf q (leafGroup s q ⟨[1], [1, 2]⟩ [.max, .sum] [0, 1] [1, 2]) .sum = naiveGroup q (pointsOf ops) [1, 2] [0, 1] := by
   decide
 
 /-- **Queries concurrent with a flush.** `before`: any history; then `dataFamily.Flush` of family
@@ -369,9 +666,10 @@ theorem query_eq_naive_in_flush_window_partial (w : Nat) (hw : 0 < w) (sch : Lis
     (q : Query) (sc : Scope) (fams group : List Nat)
     (hfa : (runOps { Shard.init w with fieldTypes := sch } (before ++ [.flush fam0] ++ during)).fieldAgg q.field = q.fieldAgg)
     (hF : q.funcAgg = q.fieldAgg) (hc : AggType.isComm q.fieldAgg = true) (hspf : 0 < q.spf)
+    (L : List AggType) (hL : L.Nodup) (hAL : q.fieldAgg ∈ L)
     (hsc : ScopeOK q sc group) (t : Nat) :
     arrGet (leafGroupW (runOps { Shard.init w with fieldTypes := sch } (before ++ [.flush fam0] ++ during)) q sc
-        [q.fieldAgg]
+        L
         ⟨fam0, md0, Map.lookup (runOps { Shard.init w with fieldTypes := sch } before).ranges md0.created⟩
         fams group) q.fieldAgg t =
       naiveBucket q (pointsOf (before ++ [.flush fam0] ++ during)) group fams t := by
@@ -456,7 +754,7 @@ theorem query_eq_naive_in_flush_window_partial (w : Nat) (hw : 0 < w) (sch : Lis
     intro ser slot
     rw [hfa1]
     exact flushBlock_cell s1 hinv1.cfgFixed md0 lo hi hr hb blk hblk ser q.field slot
-  have := leafGroupW_eq_fsum (w := s1.window) _ _ hinv hinv2 q sc hspf hcomm
+  have := leafGroupW_eq_fsum (w := s1.window) _ _ hinv hinv2 q hL (by rw [hfa]; exact hAL) sc hspf hcomm
     ⟨fam0, md0, Map.lookup s1.ranges md0.created⟩ lo hi hr hb' hk (s1.family fam0).files blk hfiles hcell fams group hsc t
   rw [hfa] at this
   rw [this, naiveBucket_eq_fsum, hF]
@@ -485,15 +783,192 @@ example :
         [(3, 1), (5, 10), (9, 4), (40, 16), (66, 32)]) := by
   decide
 
-/-- **Field functions** on the abstract map: sum/min/max/count/first/last return the field's array
-for the function's agg type unchanged, `rate` divides by the query interval in seconds. -/
-theorem expr_eval_correct (f : FuncType) (sec : Nat) (v : Int) :
+/-- **Field functions** on one value: sum/min/max/count/first/last return the field's array for the
+function's agg type unchanged, `rate` divides by the query interval in seconds. -/
+theorem func_call_table (f : FuncType) (sec : Nat) (v : Int) :
     funcCall f sec v =
       (match f with
         | .sum | .min | .max | .count | .last | .first => some ⟨v, 1⟩
         | .rate => some ⟨v, sec⟩
         | _ => none) := by
   cases f <;> rfl
+
+/-! ## the expression layer (aggregation/expression.go, binary.go) -/
+
+open LinVerif.QueryExpr in
+/-- **Select items, point by point.** `eval` mirrors `expression.eval` / `funcCall` / `binaryEval`
+branch for branch on whole arrays (field store lookups, nil results, `IsEmpty`, `IsSingle`). When
+it yields an array, then for EVERY expression — nested calls, parentheses, literals, binary
+`+ - * /` at any depth — the `isSingle` mark is the syntactic `isLit` and the value at every
+point `i` of the query is `pointValue` over the store's abstract values: a field under a function
+reads the array of the function's agg type (`GetFuncFieldParams`), without a function the type's
+default; `rate` divides by the interval; `l op r` is absent when the left value is absent and `r`
+is a literal, or `l` is a literal and the right value is absent, or both are absent — otherwise
+the operator with the missing operand read as 0, and division by zero giving 0. -/
+theorem expr_eval_correct (g : Bool) (n sec : Nat) (st : Store) (e : Expr) (parent : Option FuncType) (a : FArr)
+    (h : eval g n sec st parent e = .arr a) :
+    a.single = isLit e ∧
+    (∀ i, i < n → a.get i = pointValue sec (tyOf st) (valOf st) i parent e) ∧
+    (∀ i, n ≤ i → a.get i = none) :=
+  eval_arr_spec g n sec st e parent a h
+
+open LinVerif.QueryExpr in
+/-- **The expression layer reads nothing but its arrays**: two field stores with the same fields
+and types whose arrays READ BY THE ITEM exist alike and agree on the query's points evaluate
+alike — no result, the same panic, or arrays with the same values at every point. -/
+theorem expr_eval_congr (g : Bool) (n sec : Nat) (s1 s2 : Store) (e : Expr) (parent : Option FuncType)
+    (h : StoresAgree n s1 s2 (reads s1 parent e)) :
+    EVal.same n (eval g n sec s1 parent e) (eval g n sec s2 parent e) :=
+  eval_congr g n sec s1 s2 e parent h
+
+open LinVerif.QueryExpr in
+/-- **No panic**, source with the nil guard in `RateCall` (fixes/C11-rate-nil-guard.patch): no select
+item, on no field store, panics. -/
+theorem expr_no_panic_guarded (n sec : Nat) (st : Store) (e : Expr) (parent : Option FuncType) :
+    (match eval true n sec st parent e with | .crash => False | _ => True) :=
+  eval_no_crash_guarded n sec st e parent
+
+open LinVerif.QueryExpr in
+/-- **No panic**, current source, `_partial`: an item without `rate(...)` directly over a (possibly
+parenthesised) binary expression does not panic. The exact gap is `Neg.rate_of_nil_array_panics`. -/
+theorem expr_no_panic_partial (g : Bool) (n sec : Nat) (st : Store) (e : Expr) (parent : Option FuncType)
+    (h : rateSafe e = true) :
+    (match eval g n sec st parent e with | .crash => False | _ => True) :=
+  eval_no_crash_of_rateSafe g n sec st e parent h
+
+open LinVerif.QueryExpr in
+/-- **The planner plans what the expression reads**: every (field, agg type) array an item reads
+from the field store is the `GetFuncFieldParams` array of a (field, function) pair that
+`metadataLookup.field` planned for the item — a field without function reads the array of its
+type's down-sampling function. -/
+theorem plan_covers_reads (st : Store) (e : Expr) (parent : Option FuncType) (f : Nat) (A : AggType)
+    (h : (f, A) ∈ reads st parent e) :
+    ∃ ty fn, tyOf st f = some ty ∧ (f, fn) ∈ plan (tyOf st) parent e ∧ A = ty.funcParam fn := by
+  induction e generalizing parent with
+  | field f' =>
+    simp only [reads] at h
+    cases hl : Map.lookup st f' with
+    | none => rw [hl] at h; simp at h
+    | some fv =>
+      rw [hl] at h
+      simp only [List.mem_singleton, Prod.mk.injEq] at h
+      obtain ⟨rfl, rfl⟩ := h
+      refine ⟨fv.ftype, (match parent with | none => fv.ftype.downSamplingFunc | some fn => fn), by simp [tyOf, hl], ?_, ?_⟩
+      · cases parent <;> simp [plan, tyOf, hl]
+      · cases parent with
+        | none => cases hty : fv.ftype <;> simp [paramOf, defaultParam, FieldType.funcParam, FieldType.downSamplingFunc]
+        | some fn => rfl
+  | call fn p ih => simp only [reads] at h; simpa [plan] using ih (some fn) h
+  | num v => simp [reads] at h
+  | paren e ih => simp only [reads] at h; simpa [plan] using ih none h
+  | bin op l r ihl ihr =>
+    simp only [reads, List.mem_append] at h
+    rcases h with h | h
+    · obtain ⟨ty, fn, h1, h2, h3⟩ := ihl none h
+      exact ⟨ty, fn, h1, by simp [plan, h2], h3⟩
+    · obtain ⟨ty, fn, h1, h2, h3⟩ := ihr none h
+      exact ⟨ty, fn, h1, by simp [plan, h2], h3⟩
+
+/-- a planned field of a query: its type and the agg types of all functions selected on it. -/
+structure Planned where
+  field : Nat
+  ftype : FieldType
+  aggs : List AggType
+
+/-- the leaf query of one planned field. -/
+def Planned.query (p : Planned) (q0 : Query) (A : AggType) : Query :=
+  { q0 with field := p.field, fieldAgg := p.ftype.aggType, funcAgg := A }
+
+open LinVerif.QueryExpr in
+/-- the field store of one group from per-field, per-agg-type arrays. -/
+def mkStore (flds : List Planned) (arr : Planned → AggType → List (Nat × Int)) : Store :=
+  flds.map (fun p => (p.field, ⟨p.ftype, p.aggs.map (fun A => (A, arr p A))⟩))
+
+/-- the store the root builds from the leaf answer of the group ... -/
+def leafStore (s : Shard) (q0 : Query) (sc : Scope) (flds : List Planned) (fams group : List Nat) :=
+  mkStore flds (fun p A => bucketsOf (p.query q0 A) (leafGroup s (p.query q0 A) sc p.aggs fams group) A)
+
+/-- ... and the one it would build from the naive reference. -/
+def naiveStore (q0 : Query) (pts : List Point) (flds : List Planned) (fams group : List Nat) :=
+  mkStore flds (fun p A => naiveGroup (p.query q0 A) pts group fams)
+
+open LinVerif.QueryExpr in
+theorem lookup_mkStore (flds : List Planned) (arr : Planned → AggType → List (Nat × Int)) (f : Nat) :
+    Map.lookup (mkStore flds arr) f =
+      (flds.find? (fun p => p.field = f)).map (fun p => ⟨p.ftype, p.aggs.map (fun A => (A, arr p A))⟩) := by
+  unfold mkStore
+  induction flds with
+  | nil => rfl
+  | cons p rest ih =>
+    by_cases h : p.field = f
+    · simp [Map.lookup, h]
+    · simp [Map.lookup, h, ih]
+
+theorem lookup_map_arrays (L : List AggType) (g : AggType → List (Nat × Int)) (A : AggType) :
+    Map.lookup (L.map (fun A => (A, g A))) A = if A ∈ L then some (g A) else none := by
+  induction L with
+  | nil => rfl
+  | cons B rest ih =>
+    by_cases h : B = A
+    · subst h; simp [Map.lookup]
+    · have : ¬ A = B := fun e => h e.symm
+      simp [Map.lookup, h, ih, this]
+
+open LinVerif.QueryExpr in
+/-- **Select items end to end**: `sum(f)*2`, `f+g`, `(f-g)/max_field`, `rate(f)` … evaluated on the
+leaf answer of a group = evaluated on the naive reference of the group, for every history of
+writes / flushes / compactions / reopens, provided every array the item READS is the array of its
+field's own commutative aggregate (`hown`; the other functions selected on the same fields — the
+agg types `p.aggs` — are arbitrary, their arrays are not read by this item). -/
+theorem select_item_eq_naive_partial (w : Nat) (hw : 0 < w) (sch : List (Nat × FieldType)) (ops : List Op)
+    (hg : goodOps { Shard.init w with fieldTypes := sch } ops = true)
+    (q0 : Query) (hspf : 0 < q0.spf) (sc : Scope) (fams group : List Nat) (flds : List Planned)
+    (hflds : ∀ p ∈ flds, (runOps { Shard.init w with fieldTypes := sch } ops).fieldAgg p.field = p.ftype.aggType ∧
+      p.aggs.Nodup ∧ p.field ∈ sc.fields)
+    (hgrp : ∀ ser ∈ group, ser ∈ sc.series)
+    (g : Bool) (n sec : Nat) (e : Expr)
+    (hown : ∀ p ∈ flds, ∀ A, (p.field, A) ∈ reads (leafStore (runOps { Shard.init w with fieldTypes := sch } ops) q0 sc flds fams group) none e →
+      A = p.ftype.aggType ∧ AggType.isComm A = true) :
+    EVal.same n
+      (evalItem g n sec (leafStore (runOps { Shard.init w with fieldTypes := sch } ops) q0 sc flds fams group) e)
+      (evalItem g n sec (naiveStore q0 (pointsOf ops) flds fams group) e) := by
+  have hemp : (leafStore (runOps { Shard.init w with fieldTypes := sch } ops) q0 sc flds fams group).isEmpty =
+      (naiveStore q0 (pointsOf ops) flds fams group).isEmpty := by
+    unfold leafStore naiveStore mkStore
+    cases flds <;> rfl
+  unfold evalItem
+  rw [hemp]
+  split
+  · trivial
+  · apply eval_congr
+    refine ⟨?_, ?_⟩
+    · intro f
+      simp only [tyOf, leafStore, naiveStore, lookup_mkStore]
+      cases flds.find? (fun p => p.field = f) <;> rfl
+    · intro f A hmem fv1 fv2 h1 h2
+      simp only [leafStore, naiveStore, lookup_mkStore] at h1 h2
+      cases hfind : flds.find? (fun p => p.field = f) with
+      | none => rw [hfind] at h1; cases h1
+      | some p =>
+        rw [hfind] at h1 h2
+        simp only [Option.map_some, Option.some.injEq] at h1 h2
+        subst h1 h2
+        have hp : p ∈ flds := List.mem_of_find?_eq_some hfind
+        have hpf : p.field = f := by simpa using List.find?_some hfind
+        obtain ⟨hfa, hnd, hfs⟩ := hflds p hp
+        obtain ⟨hA, hc⟩ := hown p hp A (by rw [hpf]; exact hmem)
+        simp only [arrGet, lookup_map_arrays]
+        by_cases hAL : A ∈ p.aggs
+        · simp only [hAL, if_true]
+          have := query_group_eq_naive_partial w hw sch ops hg (p.query q0 A) sc fams group
+            (by simpa [Planned.query] using hfa) (by simp [Planned.query, hA]) (by simpa [Planned.query, ← hA] using hc)
+            (by simpa [Planned.query] using hspf) p.aggs hnd (by simpa [Planned.query, ← hA] using hAL)
+            ⟨by simpa [Planned.query] using hfs, hgrp⟩
+          have hq : (p.query q0 A).fieldAgg = A := by simp [Planned.query, hA]
+          rw [hq] at this
+          rw [this]
+          exact ⟨rfl, fun _ _ => rfl⟩
+        · simp [hAL]
 
 /-! ## proved negations (witnesses replayed against the implementation on every run) -/
 
@@ -614,6 +1089,21 @@ theorem max_of_split_sum_slot :
     naiveBucket ⟨1, .sum, .max, 32, 0, 31, 1⟩
       (pointsOf [.write 1 0 1 1 .sum 7 4, .flush 0, .write 2 0 1 1 .sum 7 16]) [1] [0] 7 = some 20 := by
   decide
+
+/-- `expr-rate-of-valueless-operands-panics` (current source): a min field whose array holds no
+value in the query range (the series has data in the family, outside the range, so the leaf answers
+the group with an empty array): `rate(fmin - fmin)` — `binaryEval` of two empty arrays returns the
+nil array and `RateCall` dereferences it. With the nil guard the item has no result. -/
+theorem rate_of_nil_array_panics :
+    (match LinVerif.QueryExpr.evalItem false 2 3600 [(2, ⟨.min, [(.min, [])]⟩)]
+        (.call .rate (.bin .sub (.field 2) (.field 2))) with
+      | .crash => True | _ => False) ∧
+    (match LinVerif.QueryExpr.evalItem true 2 3600 [(2, ⟨.min, [(.min, [])]⟩)]
+        (.call .rate (.bin .sub (.field 2) (.field 2))) with
+      | .empty => True | _ => False) := by
+  constructor <;> simp [LinVerif.QueryExpr.evalItem, LinVerif.QueryExpr.eval, LinVerif.QueryExpr.applyFunc,
+    LinVerif.QueryExpr.binaryEval, LinVerif.QueryExpr.FArr.isEmpty, LinVerif.QueryExpr.paramOf,
+    LinVerif.QueryExpr.defaultParam, Map.lookup, List.range, List.range.loop]
 
 end Neg
 
